@@ -1,4 +1,5 @@
 import Treepath.Proofs.MutateLemmas
+import Treepath.Proofs.NaturalNext
 /- C14 — Match.data assignment, del and pop write through to the document -/
 namespace Treepath.C14
 
@@ -124,5 +125,17 @@ example : let h : Heap := #[.list [.atom (.int 1), .atom (.int 2), .atom (.int 3
     (match m1.assign h (.atom (.int 5)) with
      | .ok (h1, _) => (match m1.pop h1 none with | .ok (_, _, .atom (.int 5)) => true | _ => false)
      | _ => false) = true := by decide
+
+/-- **"every match obtainable by any parent-free path"**, against the definition: the
+matches of a search over the object store — from which the handles of this property are
+taken — are, one for one and in order, at the locations of the matches of the same search
+over the JSON tree the document unfolds to, holding values that unfold to theirs -/
+theorem handles_are_the_definitions_matches (h : Heap) (v : Val) (j : J) (hu : Unf h v j)
+    (sa : Array (Step Val)) (sb : Array (Step J)) (hsteps : LRel (StepRel (Unf h)) sa.toList sb.toList) (fuel : Nat) :
+    LRel (NodeRel (Unf h)) (drain (wcx h) sa (.doc v) fuel freshIter).1
+      (drain ({ view := J.view, toJ := id } : Ctx J) sb (.doc j) fuel freshIter).1 ∧
+    (drain (wcx h) sa (.doc v) fuel freshIter).2 =
+      (drain ({ view := J.view, toJ := id } : Ctx J) sb (.doc j) fuel freshIter).2 :=
+  heap_drain_is_tree_drain h v j hu sa sb hsteps fuel
 
 end Treepath.C14
